@@ -163,6 +163,24 @@ macro_rules! enum_show {
     };
 }
 
+thread_local! {
+    static PANIC_LOC: std::cell::RefCell<String> = const { std::cell::RefCell::new(String::new()) };
+}
+static HOOK: std::sync::Once = std::sync::Once::new();
+
+/// chain a hook in front of mon's that remembers where the last panic of this thread was raised
+pub fn install_hook() {
+    HOOK.call_once(|| {
+        let prev = std::panic::take_hook();
+        std::panic::set_hook(Box::new(move |info| {
+            let loc = info.location().map(|l| format!("{}:{}", l.file(), l.line())).unwrap_or_default();
+            PANIC_LOC.with(|l| *l.borrow_mut() = loc);
+            prev(info);
+        }));
+    });
+}
+
+/// panic message followed by " @ file:line"
 pub fn pmsg(p: Box<dyn std::any::Any + Send>) -> String {
     let m = if let Some(s) = p.downcast_ref::<&str>() {
         s.to_string()
@@ -179,7 +197,8 @@ pub fn pmsg(p: Box<dyn std::any::Any + Send>) -> String {
         }
         m.truncate(cut);
     }
-    m
+    let loc = PANIC_LOC.with(|l| std::mem::take(&mut *l.borrow_mut()));
+    format!("{} @ {}", m, loc)
 }
 
 pub fn harness_error(why: &str) -> String {
@@ -330,6 +349,7 @@ mod tables {
 }
 
 fn handler(_id: &str, api: &str, cols: &[&str]) -> String {
+    install_hook();
     match api {
         "describe" => {
             let a = match cols.first().copied() {
